@@ -192,10 +192,15 @@ def read_line_series(ax, case):
         for cont in ax.containers:
             ln = cont.lines[0]
             xy = np.asarray(ln.get_xydata(), dtype=float).reshape(-1, 2)
-            s = {"label": cont.get_label(), "color": rgba(ln.get_color()), "marker": ln.get_marker(),
+            lab = cont.get_label()
+            s = {"label": None if (lab is None or str(lab).startswith("_")) else lab, "color": rgba(ln.get_color()), "marker": ln.get_marker(),
                  "xy": [(to_id(a, xs), to_id(b, SCALE)) for a, b in xy], "ye": None, "xe": None}
             for lc in cont.lines[2]:
                 segs = [np.asarray(sg, dtype=float) for sg in lc.get_segments()]
+                if any(sg.shape != (2, 2) or not np.all(np.isfinite(sg)) for sg in segs):
+                    # a bar through a non-finite point: not a drawable error bar
+                    s["ye" if s["ye"] is None and case.get("y_err") else "xe"] = ["?non-finite-bar"]
+                    continue
                 if not segs:
                     # an empty bar collection: orientation unknown; attribute to the requested ones in order
                     key = "xe" if (case.get("x_err") is not None and s["xe"] is None) else "ye"
@@ -228,7 +233,7 @@ def read_line_series(ax, case):
         for ln in cont.lines[:1]:
             in_container.add(id(ln))
     for ln in ax.get_lines():
-        if ln.get_transform() != ax.transData or id(ln) in in_container:
+        if ln.get_transform() is not ax.transData or id(ln) in in_container:
             continue
         xy = np.asarray(ln.get_xydata(), dtype=float).reshape(-1, 2)
         lab = ln.get_label()
@@ -288,7 +293,8 @@ def read_hist_series(ax, case, hist_calls):
         edges = [float(v) for v in xy[0:2 * nb - 1:2, 0]]
         heights = [float(v) for v in xy[1:2 * nb - 1:2, 1]]
         lab = poly.get_label()
-        series.append({"label": None if (lab is None or str(lab).startswith("_")) else lab,
+        # Axes.hist turns a missing label into the text 'None'
+        series.append({"label": None if (lab is None or str(lab).startswith("_") or lab == "None") else lab,
                        "fed": [to_id(v, SCALE) if math.isfinite(float(v)) else repr(float(v)) for v in np.asarray(fed, dtype=float)],
                        "edges": edges, "heights": heights,
                        "edgecolor": tuple(float(v) for v in poly.get_edgecolor()),
@@ -366,8 +372,9 @@ def run_case(case):
         if fig is not None and "error" not in obs:
             try:
                 obs.update(read_figure(fig, case, ip.hist_calls))
-            finally:
-                pass
+            except Exception as e:      # noqa
+                tb = traceback.extract_tb(e.__traceback__)
+                obs["read_error"] = f"{type(e).__name__}: {str(e)[:160]} at {tb[-1].name}"
     try:
         obs["pure"] = bool(ds.identical(before))
     except Exception as e:   # noqa
